@@ -141,6 +141,8 @@ def check(ctx):
             # chains of aliases of named references: every $ref resolves whatever the length of the chain
             "let @c = { 'n num };\nlet @b = @c;\nlet @a = @b;\nlet @z = @a;\nres /chain on get -> <@a> :: <status=404, [@z]> :: <status=500, @b>;\n",
             "let @c = { 'n [@a] };\nlet @b = @c;\nlet @a = @b;\nres /loop on get -> <@a>;\n",
+            # the same templated path declared by two resources (K3: the later one replaces the earlier): still one path parameter per variable
+            "let item = { 'name str };\nres /items/{ 'id str } on get -> <item>;\nres /items/{ 'id str } on put : <item> -> <item>;\nres /health on get -> <>;\n",
             # recursions cut at a list of references: components whose item is a $ref to themselves / to each other
             "let forest = [forest];\nres /forest on get -> <forest>;\n",
             "let rows = [cols];\nlet cols = [rows];\nres /grid on get -> <rows> :: <status=404, cols>;\n",
